@@ -908,9 +908,18 @@ def endBlock (s : State) : State :=
     | none => s) s
   { s with height := s.height + 1 }
 
-/-- `MessageSubsidy.Check` (address, opcode length — nothing about `ChainId`) and `HandleMessageSubsidy` (no committee is
-retired in this model): sender → `PoolAdd(msg.ChainId, amount)`, whatever pool that id denotes -/
+/-- `MessageSubsidy.Check` (address, chain id, opcode length) and `HandleMessageSubsidy` (no committee is retired in this
+model): sender → `PoolAdd(msg.ChainId, amount)`, the reward pool of that chain -/
 def subsidy (s : State) (a : Bytes) (poolId amount : Nat) (opcode : Bytes) : M State := do
+  checkAddress a
+  checkChainId poolId
+  if opcode.length > 100 then throw .InvalidOpcode
+  let s ← accountSub s a amount
+  pure (poolAdd s poolId amount)
+
+/-- the subsidy as it was before commit eca9d8a: `Check` did not look at `ChainId`, so `pools[ChainId]` could be any
+pool — kept for the witnesses `subsidy_breaks_escrow_eq` / `subsidy_breaks_holding_eq` -/
+def subsidyUnchecked (s : State) (a : Bytes) (poolId amount : Nat) (opcode : Bytes) : M State := do
   checkAddress a
   if opcode.length > 100 then throw .InvalidOpcode
   let s ← accountSub s a amount
@@ -926,7 +935,7 @@ inductive Op
   /-- harness set-up, not a chain operation: store a next batch (`SetDexBatch`) and mint its pending amounts into
   the holding pool (`PoolAdd`) — used to start a case with a batch near the per-batch caps -/
   | seedNext (chain : Nat) (b : Batch)
-  /-- `MessageSubsidy.Check` + `HandleMessageSubsidy`: `ChainId` is NOT validated; the amount goes to `pools[ChainId]` -/
+  /-- `MessageSubsidy.Check` (incl. `checkChainId`) + `HandleMessageSubsidy`: the amount goes to `pools[ChainId]` -/
   | subsidy (a : Bytes) (poolId : Nat) (amount : Nat) (opcode : Bytes)
   | create (m : CreateOrder)
   | edit (m : EditOrder)
